@@ -672,7 +672,7 @@ type decision struct {
 
 func (w *cworld) concCase(h int, kind string, thorough bool, enum bool, script []int) []decision {
 	r := w.r
-	nLogs := map[string]int{"aar": 1, "ja": 2, "cross": 2, "cycle3": 3}[strings.TrimPrefix(kind, "e-")]
+	nLogs := map[string]int{"aar": 1, "ja": 2, "cross": 2, "cycle3": 3, "jtrim": 3}[strings.TrimPrefix(kind, "e-")]
 	var logs []*ipfslog.IPFSLog
 	for i := 0; i < nLogs; i++ {
 		ident := w.ids.Identity(fmt.Sprintf("w%d", i))
@@ -693,6 +693,13 @@ func (w *cworld) concCase(h int, kind string, thorough bool, enum bool, script [
 	// prelude: a few sequential appends and merges so that the logs are not empty
 	for i := 0; i < nLogs && !enum; i++ {
 		for k := r.Intn(4); k > 0; k-- {
+			add("append", i, -1, pcs[r.Intn(len(pcs))], true)
+		}
+	}
+	if kind == "jtrim" {
+		// the source of the observed merge (log 1) and the log it is about to be trimmed against (log 2)
+		// both hold something
+		for i := 1; i < 3; i++ {
 			add("append", i, -1, pcs[r.Intn(len(pcs))], true)
 		}
 	}
@@ -751,6 +758,12 @@ func (w *cworld) concCase(h int, kind string, thorough bool, enum bool, script [
 		if r.Intn(3) == 0 {
 			add("join", 1, 0, -1, false)
 		}
+		if r.Intn(3) == 0 {
+			// an identity change on the destination racing the merge, then an append there
+			o := add("setid", 0, -1, 0, false)
+			o.writer = "wx"
+			add("append", 0, -1, 1, false)
+		}
 		if r.Intn(2) == 0 {
 			add("iter", 1, -1, 0, false)
 		}
@@ -761,7 +774,28 @@ func (w *cworld) concCase(h int, kind string, thorough bool, enum bool, script [
 		for k := 1 + r.Intn(3); k > 0; k-- {
 			add("append", r.Intn(2), -1, pcs[r.Intn(len(pcs))], false)
 		}
+		if r.Intn(3) == 0 {
+			// an identity change racing the merges; the appends that follow must carry the identity in force
+			o := add("setid", r.Intn(2), -1, 0, false)
+			o.writer = "wx"
+			add("append", o.log, -1, 1, false)
+		}
 		extraReaders(r.Intn(2))
+	case "jtrim":
+		// a merge from a log that is being size-bounded (trimmed) by another merge at the same time:
+		// between the two reads of the source its head may vanish from its entries
+		add("join", 0, 1, -1, false)
+		add("join", 1, 2, r.Intn(3), false)
+		if r.Intn(2) == 0 {
+			add("append", 1, -1, 1, false)
+		}
+		if r.Intn(2) == 0 {
+			add("join", 1, 2, 1+r.Intn(2), false)
+		}
+		if r.Intn(3) == 0 {
+			add("append", 0, -1, 1, false)
+		}
+		extraReaders(r.Intn(3))
 	case "cycle3":
 		add("join", 0, 1, -1, false)
 		add("join", 1, 2, -1, false)
@@ -783,7 +817,8 @@ func (w *cworld) concCase(h int, kind string, thorough bool, enum bool, script [
 		}
 	}
 	for _, o := range ops {
-		if o.kind == "mh" && !hasPrelude[o.log] {
+		// (a merge bounded by 0 empties its log again: no ToMultihash in the trimming scenario)
+		if o.kind == "mh" && (!hasPrelude[o.log] || kind == "jtrim") {
 			o.kind = "json"
 		}
 	}
@@ -888,7 +923,7 @@ func noteOr(s string) string {
 func runConc(seed int64, n int, out *bufio.Writer, thorough bool) *concStats {
 	st := &concStats{Scenarios: map[string]int{}, OpKinds: map[string]int{}, PreemptHist: map[string]int{},
 		ThreadsHist: map[string]int{}, seen: map[string]bool{}, EnumByScenario: map[string]int{}}
-	kinds := []string{"aar", "ja", "cross", "cycle3"}
+	kinds := []string{"aar", "ja", "cross", "cycle3", "jtrim"}
 	for h := 0; h < n; h++ {
 		if skipCase(h) {
 			continue
